@@ -450,6 +450,7 @@ Inductive dop :=
 | OKill (a : aid)
 | ODrain (a : aid)
 | OAbort (a : aid)
+| ODropNow (a : aid)     (* the driver drops a's start future itself: the guard's cleanup runs inline, no settle *)
 | OLink (c p : aid)
 | OUnlink (c p : aid)
 | OOpen (a : aid) (g : gate)
@@ -595,6 +596,11 @@ Section Driver.
     | OAbort a =>
         let b := bk d a in
         if alive_phase (phs b) then mkD s (bupd (bk d) a (set_abort true b)) else d
+    | ODropNow a =>
+        match phs (bk d a) with
+        | PhPre => abrupt a d (Some false)
+        | _ => d
+        end
     | OLink c p => mkD (stepR (LLink c p) s) (bk d)
     | OUnlink c p => mkD (stepR (LUnlink c p) s) (bk d)
     | OOpen a g => mkD s (bupd (bk d) a (open_gate g (bk d a)))
